@@ -169,6 +169,8 @@ pub struct QfModel {
     pub strict: bool,
     /// violations of other properties seen while exploring (not verdicts of this run)
     pub other: std::sync::atomic::AtomicU64,
+    /// one-step look-ahead from arrivals at known keys (bfs::Search::dup_lookahead)
+    pub lookahead: bool,
 }
 
 fn viol(p: &str, sig: String, msg: String) -> Violation {
@@ -181,7 +183,7 @@ impl QfModel {
         if classes.n_classes > 128 || cfg.universe.len() > 128 {
             return Err("universe too large for the bitmask reference".into());
         }
-        Ok(Self { cfg, classes, track_elements, focus: if track_elements { "C01" } else { "C13" }, strict: false, other: std::sync::atomic::AtomicU64::new(0) })
+        Ok(Self { cfg, classes, track_elements, focus: if track_elements { "C01" } else { "C13" }, strict: false, other: std::sync::atomic::AtomicU64::new(0), lookahead: false })
     }
     pub fn init(&self) -> St {
         St { f: self.cfg.fresh(), set: 0, inserted: 0, tainted: false, off: 0, hist: vec![] }
@@ -358,7 +360,7 @@ pub fn explore(model: &QfModel, keep_states: bool, max_states: u64, threads: usi
     let mut wrapped = 0u64;
     let mut full = 0u64;
     let mut refs: std::collections::HashSet<u128> = Default::default();
-    let search = Search { max_states, threads, ..Search::new(model) };
+    let search = Search { max_states, threads, dup_lookahead: model.lookahead, ..Search::new(model) };
     let (stats, found) = search.run(vec![model.init()], |s, _d| {
         refs.insert(s.set);
         let (slots, n) = s.f.verif_state();
@@ -602,6 +604,95 @@ pub fn pair_sweep(model: &QfModel, lefts: &[St], rights: &[St], laws: bool, thre
         viols.extend(v);
     }
     (total, viols)
+}
+
+/// C12 with hidden state in mind (see cuckoo::failure_continuations): for every start state, every insert
+/// and every union with a right operand from `rights` that FAILS there, and every continuation of two further
+/// operations (insert of every universe element, clear, union with every right operand), the filter that went
+/// through the failed call must give the same results and final observations as a clone that did not.
+/// Returns (failing operations, continuations compared, violations).
+pub fn failure_continuations(model: &QfModel, starts: &[St], rights: &[St], threads: usize) -> (u64, u64, Vec<Viol>) {
+    let cfg = &model.cfg;
+    #[derive(Clone, Copy, Debug)]
+    enum O {
+        Insert(usize),
+        Union(usize),
+        Clear,
+    }
+    let mut all_ops: Vec<O> = (0..cfg.universe.len()).map(O::Insert).collect();
+    all_ops.extend((0..rights.len()).map(O::Union));
+    all_ops.push(O::Clear);
+    let first_ops: Vec<O> = all_ops.iter().copied().filter(|o| !matches!(o, O::Clear)).collect();
+    let apply = |f: &mut Qf, op: &O| -> u8 {
+        mccore::panics::catch(|| match *op {
+            O::Insert(i) => match f.insert(&Key(cfg.universe[i])) { Ok(true) => 0u8, Ok(false) => 1, Err(_) => 2 },
+            O::Union(t) => match f.union(&rights[t].f) { Ok(()) => 6, Err(_) => 7 },
+            O::Clear => { f.clear(); 5 }
+        }).unwrap_or(9)
+    };
+    let name = |o: &O| match *o {
+        O::Insert(i) => format!("insert({:#x})", cfg.universe[i]),
+        O::Union(t) => format!("union(filter built from {:?})", rights[t].hist.iter().map(|&i| format!("{:#x}", cfg.universe[i as usize])).collect::<Vec<_>>()),
+        O::Clear => "clear()".to_string(),
+    };
+    let chunk = ((starts.len() + threads - 1) / threads).max(1);
+    let results: Vec<(u64, u64, Vec<Viol>)> = std::thread::scope(|sc| {
+        let hs: Vec<_> = starts.chunks(chunk).map(|part| {
+            let (all_ops, first_ops, apply, name) = (&all_ops, &first_ops, &apply, &name);
+            sc.spawn(move || {
+                mccore::panics::install();
+                let (mut failing, mut conts) = (0u64, 0u64);
+                let mut vs: Vec<Viol> = vec![];
+                for s0 in part {
+                    for op1 in first_ops.iter() {
+                        let mut f1 = s0.f.clone();
+                        let r = apply(&mut f1, op1);
+                        if r != 2 && r != 7 {
+                            continue;
+                        }
+                        failing += 1;
+                        for op2 in all_ops.iter() {
+                            for op3 in all_ops.iter() {
+                                conts += 1;
+                                let mut a = f1.clone();
+                                let mut b = s0.f.clone();
+                                let ra = (apply(&mut a, op2), apply(&mut a, op3));
+                                let rb = (apply(&mut b, op2), apply(&mut b, op3));
+                                let bad = if ra != rb {
+                                    Some(format!("results {:?} vs {:?}", ra, rb))
+                                } else {
+                                    let (oa, ob) = (mccore::panics::watch(|| obs(cfg, &a)), mccore::panics::watch(|| obs(cfg, &b)));
+                                    if oa != ob { Some(format!("final observations {:?} vs {:?}", oa, ob)) } else { None }
+                                };
+                                if let Some(m) = bad {
+                                    let sig = format!("{} failed operation is not a no-op for what follows", cfg.label);
+                                    if vs.is_empty() {
+                                        vs.push(Viol { property: "C12".into(), signature: sig,
+                                            message: format!("after the failing {} the continuation [{}, {}] behaves differently than without the failed call: {} (with / without)", name(op1), name(op2), name(op3), m),
+                                            replay: json!({"structure": "QuotientFilter", "bits_quotient": cfg.q, "bits_remainder": cfg.r, "hasher": "identity",
+                                                "history": s0.hist.iter().map(|&i| format!("insert({:#x})", cfg.universe[i as usize])).collect::<Vec<_>>(),
+                                                "failing_op": name(op1), "continuation": [name(op2), name(op3)],
+                                                "what": "compared with the same two operations on a clone that did not go through the failed call"}) });
+                                    }
+                                }
+                            }
+                        }
+                    }
+                }
+                (failing, conts, vs)
+            })
+        }).collect();
+        hs.into_iter().map(|h| h.join().expect("worker")).collect()
+    });
+    let (mut f, mut c, mut v) = (0u64, 0u64, vec![]);
+    for (a, b, w) in results {
+        f += a;
+        c += b;
+        if v.is_empty() {
+            v.extend(w);
+        }
+    }
+    (f, c, v)
 }
 
 /// Associativity over all triples of `states`: (a ∪ b) ∪ c == a ∪ (b ∪ c) whenever everything fits.
